@@ -76,10 +76,8 @@ def run(ctx):
     cv = ct_mod.func('convert')
     arms = set()
     for n in ast.walk(cv):
-        if isinstance(n, ast.Compare) and isinstance(n.left, ast.Name) and n.left.id == 'ctype' and isinstance(n.ops[0], ast.Eq):
-            d = dotted(n.comparators[0])
-            if d:
-                arms.add(d.split('.')[-1])
+        if isinstance(n, ast.Compare) and isinstance(n.left, ast.Name) and n.left.id == 'ctype':
+            arms |= set(_ctype_members(ct_mod, n))
     ctx.floor('R1.2', 'converted types the writer can emit', len(emitted), 10)
     ctx.floor('R1.2', 'arms of converted_types.convert', len(arms), 18)
     for c in sorted(emitted):
@@ -115,6 +113,7 @@ def run(ctx):
     r19_floored(ctx)
     r114(ctx)
     r119_views(ctx)
+    r126(ctx)
     r121(ctx)
     r122(ctx)
     r124(ctx)
@@ -476,6 +475,69 @@ def r19_floored(ctx, rule='R1.9'):
            'day = x // ns_per_day, ns = x %% ns_per_day over the same x: %s / %s' % ([norm(x) for x in quos][:2], [norm(x) for x in pairs][:2]), wr.loc(f))
 
 
+def _ctype_members(ct_mod, cmp):
+    """converted types a test `ctype == X` / `ctype in (X, Y)` / `ctype in <module-level collection>` selects"""
+    if not (isinstance(cmp, ast.Compare) and len(cmp.ops) == 1 and isinstance(cmp.ops[0], (ast.Eq, ast.In))):
+        return []
+    c = cmp.comparators[0]
+    if isinstance(c, ast.Name):
+        vals = [v for v in ct_mod.assigns.get(c.id, []) if isinstance(v, (ast.Set, ast.Tuple, ast.List))]
+        c = vals[-1] if vals else c
+    elts = c.elts if isinstance(c, (ast.Set, ast.Tuple, ast.List)) else [c]
+    out = []
+    for e in elts:
+        d = dotted(e) if isinstance(e, ast.Attribute) else None
+        if d and '.ConvertedType.' in d:
+            out.append(d.split('.')[-1])
+    return out
+
+
+INT_ANNOTATIONS = ('UINT_8', 'UINT_16', 'UINT_32', 'UINT_64', 'INT_8', 'INT_16', 'INT_32', 'INT_64')
+
+
+def r126(ctx, rule='R1.26'):
+    """converted_types.convert, integer annotations: whatever leaves an arm that handles UINT_n / INT_n has the dtype the
+    `complex` table promises for that annotation - every return of the arm casts (astype / view) to it.  Returning the
+    stored array as it is, is right only for the annotation whose dtype *is* the storage dtype; "same width" is not
+    "same type" (UINT_32 is stored in int32)."""
+    ct_mod = ctx.repo['converted_types']
+    cv = ct_mod.func('convert')
+    complex_ = module_table(ctx.repo, 'converted_types', 'complex')
+    want = {k.name: v.text.split(':', 1)[1] for k, v in complex_.items() if hasattr(k, 'name') and hasattr(v, 'text') and v.text.startswith('dtype:')}
+    n = 0
+    for st in ast.walk(cv):
+        if not isinstance(st, ast.If):
+            continue
+        cmps = [x for x in ast.walk(st.test) if isinstance(x, ast.Compare) and isinstance(x.left, ast.Name) and x.left.id == 'ctype']
+        members = [m_ for x in cmps for m_ in _ctype_members(ct_mod, x) if m_ in INT_ANNOTATIONS]
+        if not members:
+            continue
+        defs = {norm(a.targets[0]): a.value for a in ast.walk(ast.Module(body=st.body, type_ignores=[])) if isinstance(a, ast.Assign) and len(a.targets) == 1}
+        rets = [r for b_ in st.body for r in ast.walk(b_) if isinstance(r, ast.Return)]
+        for mem in members:
+            n += 1
+            bad = []
+            for r in rets:
+                v = r.value
+                ok = False
+                if isinstance(v, ast.Call) and isinstance(v.func, ast.Attribute) and v.func.attr in ('astype', 'view') and v.args:
+                    a0 = v.args[0]
+                    if isinstance(a0, ast.Name) and norm(a0) in defs:
+                        a0 = defs[norm(a0)]
+                    t = norm(a0)
+                    if t in ('complex[ctype]', 'typemap(se)', 'simple.get(se.type)'):
+                        ok = t == 'complex[ctype]'
+                    else:
+                        t = t.replace('np.', '').replace("'", '').replace('dtype(', '').rstrip(')')
+                        ok = t == want.get(mem)
+                if not ok:
+                    bad.append(norm(r)[:50])
+            ctx.ob(rule, 'converted_types.convert:%s-leaves-with-the-annotated-dtype' % mem, bool(rets) and not bad,
+                   'annotation %s promises dtype %s (converted_types.complex); the arm returns %s' % (mem, want.get(mem), bad or 'nothing'),
+                   ct_mod.loc(st))
+    ctx.floor(rule, 'integer annotation arms of converted_types.convert', n, 8)
+
+
 def r114(ctx, rule='R1.14'):
     """writer.convert, datetimes: (a) the INT96 arm splits *nanoseconds* into day and nanosecond-of-day, so its
     operand must be the column brought to nanosecond resolution - the raw int64 view counts the column's own unit;
@@ -508,7 +570,7 @@ def r114(ctx, rule='R1.14'):
     n = 0
     for st in iter_child_stmts(f.body):
         if isinstance(st, ast.Assign) and isinstance(st.value, ast.BinOp) and isinstance(st.value.op, ast.Mult) \
-                and norm(st.value.right) == 'factor':
+                and (norm(st.value.right) == 'factor' or norm(st.value.left).endswith(".view('int64')")):
             n += 1
             out = norm(st.targets[0])
             operand = norm(st.value.left)
